@@ -34,6 +34,7 @@ let cmd_queryref args =
              rendering saturated: the attribute relation has at most |attrs| links on a chain *)
           let simple = QueryRef.simple_path cs in
           let k = nat_of_int (if simple then SL.length cs else SL.length cs + SL.length st.Wire.x_attrs + 1) in
+          if not simple && not (QueryRef.saturated st.Wire.x_attrs k) then "unsaturated" else
           let js = Nested.render_nodes st.Wire.x_attrs (fun _ -> false) vals k nodes in
           let rec sv (v : Query.vres) = match v with
             | Query.VIdx i -> string_of_int (int_of_n i)
